@@ -123,6 +123,22 @@ theorem Cut.trans {t1 t2 t3 : List Int} (h1 : Cut p t1 t2) (h2 : Cut p t2 t3) : 
   | refl t => exact h2
   | step c d rest t' hs _ ih => exact Cut.step c d rest t3 hs (ih h2)
 
+theorem Cut.length_le {t1 t2 : List Int} (h : Cut p t1 t2) : t2.length ≤ t1.length := by
+  induction h with
+  | refl t => exact Nat.le_refl _
+  | step c d rest t' hs _ ih => simp; omega
+
+theorem Vals.cons_inv {st : List Int} {k : RK} {ρ : RTy} (h : Vals n st (k :: ρ)) :
+    ∃ v st', st = v :: st' ∧ valOk n k v ∧ Vals n st' ρ := by
+  cases st with
+  | nil => exact h.elim
+  | cons v st' => exact ⟨v, st', rfl, h.1, h.2⟩
+
+theorem Vals.nil_inv {st : List Int} (h : Vals n st []) : st = [] := by
+  cases st with
+  | nil => rfl
+  | cons v st' => exact h.elim
+
 theorem opAt_spec {pc : Nat} {o : Op} (h : opAt p pc = some o) : ∃ w, fetch p pc = .ok w ∧ Op.ofNat? w.op = some o := by
   unfold opAt at h
   split at h
